@@ -82,8 +82,10 @@ func (c c06FailCore) Check(e zapcore.Entry, ce *zapcore.CheckedEntry) *zapcore.C
 	}
 	return ce
 }
-func (c c06FailCore) Write(zapcore.Entry, []zapcore.Field) error { return fmt.Errorf("core write failed") }
-func (c c06FailCore) Sync() error                                { return fmt.Errorf("core sync failed") }
+func (c c06FailCore) Write(zapcore.Entry, []zapcore.Field) error {
+	return fmt.Errorf("core write failed")
+}
+func (c c06FailCore) Sync() error { return fmt.Errorf("core sync failed") }
 
 func (c c06Config) msg() string {
 	if c.Msg == "" {
